@@ -162,3 +162,22 @@ pub fn render_with_source<E: Diagnostic>(e: &E, src: &str) -> String {
     let w = WithSource { inner: e, source: NamedSource::new("input.wac", src.to_string()) };
     render(&w, src)
 }
+
+/// The real lexer's token stream: (token name as wac prints it, offset, length), up to and
+/// including the first lexical error (`Err(message)` in place of the name).
+pub fn lex(src: &str) -> Vec<(Result<String, String>, usize, usize)> {
+    let mut out = Vec::new();
+    match wac_parser::lexer::Lexer::new(src) {
+        Err((e, sp)) => out.push((Err(e.to_string()), sp.offset(), sp.len())),
+        Ok(lexer) => {
+            for (r, sp) in lexer {
+                let stop = r.is_err();
+                out.push((r.map(|t| t.to_string()).map_err(|e| e.to_string()), sp.offset(), sp.len()));
+                if stop {
+                    break;
+                }
+            }
+        }
+    }
+    out
+}
